@@ -1,6 +1,6 @@
 (** C10 — changing representation loses nothing: the obligations, written out in full. *)
 From Coq Require Import List NArith ZArith String.
-From SK Require Import lib.LGraph lib.StrJoin model.C10_Model proof.C10_Proof proof.C10_Hydrogen proof.C10_Routes proof.C10_GmlWrite proof.C10_HRound proof.C10_Routes2 proof.C10_Reindex proof.C10_MolGraph proof.C10_Smart proof.C10_GmlEH proof.C10_Select proof.C10_MolOk.
+From SK Require Import lib.LGraph lib.StrJoin model.C10_Model proof.C10_Proof proof.C10_Hydrogen proof.C10_Routes proof.C10_GmlWrite proof.C10_HRound proof.C10_Routes2 proof.C10_Reindex proof.C10_MolGraph proof.C10_Smart proof.C10_GmlEH proof.C10_Select proof.C10_MolOk proof.C10_Full.
 Import ListNotations.
 Local Open Scope Z_scope.
 
@@ -302,3 +302,22 @@ Theorem C10_changed_attributes_default :
     nx_to_gml_sel asel_charge Lg Rg Kg reindex explicit_h = nx_to_gml Lg Rg Kg reindex explicit_h.
 Proof. exact nx_to_gml_sel_charge. Qed.
 Print Assumptions C10_changed_attributes_default.
+
+(** Two routes, FULL export (core=False).  For an atom-balanced pair of molecule graphs r, p (no standard_order on their
+    bonds: [std_free]) the rule written from the reaction string (smart_to_gml core=False: left / right = r / p themselves)
+    and the rule written from the ITS (its_to_gml core=False: left / right = its_decompose of the ITS) read back to the same
+    graph: the whole ITS I = ITSGraph(r, p) — same atoms, element and both charges at each, same (before, after) bond
+    dictionaries.  In particular the full ITS of molecule graphs lies in the domain of C10_gml_roundtrip. *)
+Theorem C10_two_routes_full :
+  forall (r p : gr) (eo : list (N * N)),
+    mol_ok r = true -> mol_ok p = true -> balanced r p = true -> eo_covers r p eo = true ->
+    std_free r = true -> std_free p = true ->
+    let I := its_construct r p eo in
+    let A := gml_to_its (smart_to_gml r p eo false false false) in
+    let B := gml_to_its (its_to_gml I false false false) in
+    (forall n, has_node A n = has_node I n /\ has_node B n = has_node I n) /\
+    (forall n a, label I n = Some a ->
+       let x := Some (gml_node n (tg_el (tG_of a)) (tg_ch (tG_of a)) (tg_ch (tH_of a))) in label A n = x /\ label B n = x) /\
+    (forall u v, adj A u v = adj I u v /\ adj B u v = adj I u v).
+Proof. exact two_routes_full_b. Qed.
+Print Assumptions C10_two_routes_full.
